@@ -165,11 +165,22 @@ Definition op_name (o : dop) : string :=
   end.
 
 (* methods that hand the joined path to the os package before the in-memory tree
-   has had a chance to refuse the name *)
+   has had a chance to refuse the name (used for the "predicted escape must be
+   observed" test of exact cases: every one of these creates or changes its
+   target whenever the parent exists) *)
 Definition disk_first (o : dop) : bool :=
   match o with
   | OWriteFile _ | OMkdirAll _ | OMkdir _ | OSymlink _ _ | OChmod _ | OMknod _ => true
   | _ => false
+  end.
+
+(* every method but Create / OpenFile(O_CREATE) / Remove calls the os package
+   first (Link: for its NEW name; the old name is tested) — Proofs/ConfineDirFS.v,
+   [host_first], proves this order of the operational model of dirFS *)
+Definition host_first (o : dop) : bool :=
+  match o with
+  | OCreate _ | ORemove _ => false
+  | _ => true
   end.
 
 Definition lex_path (b : str) (o : dop) : str := dirfs_host_path b (la (op_name o)).
@@ -181,9 +192,42 @@ Definition links_of (b : str) (ops : list dop) : list (str * str) :=
 
 Definition related (t x : str) : bool := underb t x || underb x t.
 
+(* the components memFS.MkdirAll enters as child names: all but "" and "." —
+   ".." is an ordinary name there *)
+Definition lit_comps (s : str) : list str := filter (fun c => negb (is_skip c)) (split s).
+
+(* Create / OpenFile(O_CREATE) / Remove ask the in-memory tree first: the name is
+   accepted only if the tree holds the literal parent chain filepath.Dir(name).
+   For a name that leaves the base that chain starts with a child literally
+   named "..", which only an earlier MkdirAll can have entered (its host call,
+   os.MkdirAll on directories that exist, succeeds and the tree then enters
+   every component).  Through a symbolic link made earlier the chain is the
+   link's; then any earlier MkdirAll with a ".." component may have provided it. *)
+Definition enabled (earlier : list dop) (o : dop) : bool :=
+  let parent := lit_comps (dir (la (op_name o))) in
+  match parent with
+  | [] => true
+  | _ =>
+    existsb (fun m => match m with OMkdirAll n => cprefixb parent (lit_comps (la n)) | _ => false end) earlier ||
+    (existsb (fun m => match m with OSymlink _ l => cprefixb (lit_comps (la l)) parent | _ => false end) earlier &&
+     existsb (fun m => match m with OMkdirAll n => existsb is_dd (lit_comps (la n)) | _ => false end) earlier)
+  end.
+
+(* each operation with "the host is reached by this call on the unchanged code" *)
+Fixpoint annotate (earlier ops : list dop) : list (dop * bool) :=
+  match ops with
+  | [] => []
+  | o :: t => (o, host_first o || enabled earlier o) :: annotate (earlier ++ [o]) t
+  end.
+
 Definition explain (b : str) (ops : list dop) (x : str) : string :=
   let links := links_of b ops in
-  if existsb (fun o => negb (underb b (lex_path b o)) && related (resolve 4 links (lex_path b o)) x) ops
+  let ann := annotate [] ops in
+  let lexesc (o : dop) := negb (underb b (lex_path b o)) && related (resolve 4 links (lex_path b o)) x in
+  let linkesc (o : dop) := underb b (lex_path b o) &&
+                           negb (str_eqb (resolve 4 links (lex_path b o)) (lex_path b o)) &&
+                           related (resolve 4 links (lex_path b o)) x in
+  if existsb (fun a => snd a && lexesc (fst a)) ann
   then "viol:dirfs-unchecked-path"
   else if existsb (fun o => match o with
                             | OLink old _ =>
@@ -192,10 +236,11 @@ Definition explain (b : str) (ops : list dop) (x : str) : string :=
                                 negb (underb b t) && str_eqb t (clean x)
                             | _ => false end) ops
   then "viol:dirfs-link-sibling-prefix"
-  else if existsb (fun o => underb b (lex_path b o) &&
-                            negb (str_eqb (resolve 4 links (lex_path b o)) (lex_path b o)) &&
-                            related (resolve 4 links (lex_path b o)) x) ops
+  else if existsb (fun a => snd a && linkesc (fst a)) ann
   then "viol:dirfs-follows-host-symlink"
+  else if existsb (fun a => negb (snd a) && (lexesc (fst a) || linkesc (fst a))) ann
+  (* a name the in-memory tree refuses on the unchanged code reached the host *)
+  then "viol:tree-checked-name-escapes"
   else "viol:escape-unexplained".
 
 Fixpoint dedup (l : list string) : list string :=
@@ -215,6 +260,44 @@ Definition check_canary (c : kcase) : list string :=
                (k_ops c))
        "mismatch:model-escape-not-observed"
    else []).
+
+(* ---- canary tree: InitKeyring on the directory-backed filesystem ----------------- *)
+
+Record ycase := {
+  y_base : string; y_roots : list string;
+  y_element : string;         (* the key location (URL or local path) *)
+  y_changed : list string
+}.
+
+(* the model's operations: MkdirAll(etc/apk/keys), WriteFile(key_path element);
+   by c18_key_basename that path never leaves etc/apk, so nothing outside the
+   designated directories may change *)
+Definition check_keyring (c : ycase) : list string :=
+  let roots := map la (y_roots c) in
+  match escapes roots (map la (y_changed c)) with
+  | [] => []
+  | _ => ["viol:key-file-escapes-root"]
+  end.
+
+(* ---- canary tree: cachedPackage and the .PKGINFO datahash ------------------------ *)
+
+Record mcase := {
+  m_cachedir : string;        (* the package's cache directory (cacheDirForPackage) *)
+  m_roots : list string;
+  m_datahash : string;        (* the datahash line of the cached control section *)
+  m_dat_exists : bool;        (* a file exists at cache_member_path before the call *)
+  m_tar_created : bool;       (* ... and the uncompressed tar next to it exists afterwards *)
+  m_changed : list string
+}.
+
+Definition check_member (c : mcase) : list string :=
+  let roots := map la (m_roots c) in
+  tag_if (negb (Bool.eqb (cached_rebuilds (la (m_datahash c)) (m_dat_exists c)) (m_tar_created c)))
+    "mismatch:cached-package-rebuild" ++
+  match escapes roots (map la (m_changed c)) with
+  | [] => []
+  | _ => ["viol:cache-member-escapes-cache-dir"]
+  end.
 
 (* ---- canary tree: the cache functions driven through the public API ----------- *)
 
@@ -251,6 +334,9 @@ Definition check_cache (c : ccase) : list string :=
     end
   end.
 
-Inductive c18case := CPath (c : pcase) | CCanary (c : kcase) | CCache (c : ccase).
+Inductive c18case := CPath (c : pcase) | CCanary (c : kcase) | CCache (c : ccase) | CKeyring (c : ycase) | CMember (c : mcase).
 Definition check_c18 (c : c18case) : list string :=
-  match c with CPath p => check_path p | CCanary k => check_canary k | CCache q => check_cache q end.
+  match c with
+  | CPath p => check_path p | CCanary k => check_canary k | CCache q => check_cache q
+  | CKeyring y => check_keyring y | CMember m => check_member m
+  end.
